@@ -56,6 +56,18 @@ def const_of(n):
     return None
 
 
+def is_null(n):
+    """null pointer constant / literal zero, through any casts"""
+    if n is None:
+        return False
+    s = n.strip_all_casts()
+    if s.k in ("IntegerLiteral",) and s.get("val") == 0:
+        return True
+    if s.get("cv") == 0:
+        return True
+    return s.k == "GNUNullExpr"
+
+
 def cond_facts(cond, polarity):
     """conjunction of (atom, polarity) implied by `cond` evaluating to `polarity`.
     Atoms are stripped expression nodes; comparisons against literal 0 are normalised to the
